@@ -22,6 +22,22 @@ Readings chosen (where the property text leaves room):
   remove_ornaments) to the mean performed onset of its notes and is linear between neighbours;
   the performance->score map is checked when these means are strictly increasing.
 * the performed duration used is `duration_sec` of the performance note array.
+* "against the same score": the score object AS IT IS at the time of the call.  A score object may have a past - it was
+  read (maps, note arrays ...) while it was built, it was encoded before with this or another performance, it was
+  edited in place (notes moved, lengthened, re-pitched, removed, added) - and none of that may show: every use of the
+  codec must return, bit for bit, what the same call returns on a fresh score object of equal value (same construction
+  and edit steps, never read in between; compared only when the two `note_array()`s are identical), and the round trip is
+  judged against the note array the object has now.
+* a float32 column x that is read back as 2^x (`beat_period_log`, `beat_period_ratio_log`, `articulation_log`) carries
+  ln 2 * |x| * 2^-24 into what is computed from it: the tolerances grow with |x| / 4 beyond 1.
+* NaN / inf in a parameter column or in a decoded onset / duration is a failure of its own whenever something is matched.
+  The two open findings are exactly: a grace note decodes to duration 0 (F-C18-2), a note played for less than 0.075 s to
+  0.075 s (F-C18-4); any other decoded duration of such a note is judged like every other note's.
+* "beat period": seconds per beat.  For the two built-in tempo curves every beat period is a slope of a piecewise linear
+  function through (matched score onset or `last_time`, time inside the performance), so it cannot exceed
+  (span of the matched performance + 1) / (smallest interval between these score times); the score times are taken from the
+  exact integer columns (`onset_div`, `duration_div`: does any matched note sound past the last matched onset?), the
+  clause is skipped when two matched onsets are closer than 0.02 beat.
 """
 import math
 import random
@@ -34,7 +50,8 @@ from core import Eval
 
 PROPERTY = "C18"
 DRIVER = "drv_c18"
-PROPS = ["PartituraModel.Props.C18", "PartituraModel.Props.C18Real", "PartituraModel.Props.C18Pipeline"]
+PROPS = ["PartituraModel.Props.C18", "PartituraModel.Props.C18Real", "PartituraModel.Props.C18Pipeline",
+         "PartituraModel.Props.C18Hist"]
 TRUSTED = [
     "numpy argsort(kind='mergesort') / lexsort are stable; np.unique = sorted distinct values; np.split; np.maximum.accumulate",
     "scipy interp1d linear with fill_value='extrapolate' (knots sorted stably by x, segment by searchsorted-left clipped to 1..n-1); "
@@ -47,6 +64,9 @@ TRUSTED = [
     "proved for log2 / 2^x over the reals (Props/C18Real exp2_log2)",
     "np.std (a square root) enters the model as a parameter (StdOk: its square is the variance of the beat periods)",
     "note_array() / compute_note_array() (property C05) provide the score table; PerformedPart.note_array() the performance table",
+    "histories: an in-place edit enters the model as the change it makes to the note table (row of the note replaced / dropped / "
+    "added, read off two fresh builds); that Part.add / remove / attribute assignment change note_array() that way is C01 / C05",
+    "np.isclose in get_unique_seq (repair C18-11) is modelled over exact rationals: |a - b| <= 1e-8 + 1e-5 |b|",
 ]
 PARTIAL = [
     "duration_roundtrip_partial / matched_row_duration_partial / the duration clause of performance_roundtrip: performed durations "
@@ -60,20 +80,31 @@ PARTIAL = [
     "two built-in methods only",
     "float rounding is outside the theorems (exact rationals / reals); it is bounded by the oracle's tolerance on every case",
 ]
-RULE = ("seeded random single-part scores (1-3 voices, chords, ties, grace notes, optional pickup, divisions 1..24 and rare large "
-        "divisions) x note-for-note performances on a dyadic grid (free IOIs, tempo-following IOIs, constant tempo, chord spread, "
-        "rare non-monotone chord means, rare short notes) x alignments with deletions, insertions, ornaments, matches to unknown ids, "
-        "shuffled order x normalisation x tempo method (average, derivative, a user callable with arbitrary positive beat periods); "
-        "plus direct note-array tables with duplicate/missing ids (matched tables, decode_performance with any subset/order of "
-        "snote_ids), direct monotonize_times inputs (increasing, random, plateaus, decreasing, shuffled abscissae), time-map cases, "
-        "exhaustive velocities 1..127 and random scale/rescale rows.  distinct = distinct structural key "
-        "(kind, #notes, #groups, flags, normalisation, method); non-trivial = at least two onset groups matched")
+RULE = ("seeded random single-part scores (1-3 voices, chords, ties, grace notes, grace notes at the very end of the part, optional "
+        "pickup, divisions 1..24 and rare large divisions; built plainly or with read-only views interleaved - gen_score `warm`; "
+        "passed as Part or as Score, the performance as PerformedPart or Performance) x note-for-note performances on a dyadic grid "
+        "(free IOIs, tempo-following IOIs, constant tempo, chord spread, rare non-monotone chord means, rare short notes) x "
+        "alignments with deletions, insertions, ornaments, matches to unknown ids, shuffled order; in 3 of 10 cases the deletions "
+        "are placed structurally (the performance stops at a grace note so that the matched table ends in notes without duration, "
+        "stops / starts at an onset, first onset, main notes of grace notes, whole chords, everything but the grace notes, score "
+        "ending in grace notes) x normalisation x tempo method (average, derivative, a user callable with arbitrary positive beat "
+        "periods); in 3 of 10 cases a HISTORY on one score object: 1-3 stages of uses of the codec (to_matched_score with and "
+        "without score markings, encode, encode+decode, time maps; with the case's or another performance / alignment) followed by "
+        "in-place edits (note moved later, length changed, re-pitched, removed, new note), then the full evaluation on the edited "
+        "object; plus direct note-array tables with duplicate/missing ids (matched tables, decode_performance with any "
+        "subset/order of snote_ids), direct monotonize_times inputs (increasing, random, plateaus, decreasing, shuffled abscissae), "
+        "time-map cases, exhaustive velocities 1..127 and random scale/rescale rows.  distinct = distinct structural key "
+        "(kind, #notes, #groups, flags, history length, structural pattern, normalisation, method); non-trivial = at least two onset "
+        "groups matched")
 LEVEL_TEXT = ("Lean theorems over exact rationals/reals for the whole pipeline: positivity of both built-in tempo curves for any performed "
-              "onsets, monotonize_times, timing/duration/velocity round trip composed with to_matched_score and decode_performance's "
-              "bookkeeping (performance_roundtrip), normalisations, matched tables and time maps from an alignment; tied to the Python "
+              "onsets (also when the matched table ends in notes without duration: last_time_grace_end), monotonize_times, "
+              "timing/duration/velocity round trip composed with to_matched_score and decode_performance's bookkeeping "
+              "(performance_roundtrip), normalisations, matched tables and time maps from an alignment, and the same round trip after "
+              "any history of in-place edits and earlier uses of one score object (history_roundtrip, history_fresh); tied to the Python "
               "code by differential testing of every intermediate table (matched score, onset groups, monotonized times, tempo curve of "
               "either method in binary64, timing, articulation ratio, normalisation columns, encode_performance as a whole incl. "
-              "snote_ids, decoded notes, time-map knots and both maps).")
+              "snote_ids, decoded notes, time-map knots and both maps, whole histories of edits and uses on one object), and by the "
+              "oracle's comparison of every use with the same call on a fresh score of equal value.")
 
 NORMS = ["beat_period", "beat_period_log", "beat_period_ratio", "beat_period_ratio_log", "beat_period_standardized"]
 METHODS = ["average", "derivative", "callable"]
@@ -738,7 +769,7 @@ def eval_tables(ev, na, pna, al, part_or_na, perf_or_na, judge_ms=True):
         got = []
         for k in range(len(ms)):
             i = si.get(str(sids[k]), -1)
-            od = int(na["onset_div"][i]) if i >= 0 else None
+            od = int(na["onset_div"][i]) if i >= 0 else -(10 ** 9)  # a row whose id the score does not have (any more)
             got.append((od, int(ms["pitch"][k]), str(sids[k]), float(ms["onset"][k]), float(ms["duration"][k]),
                         float(ms["p_onset"][k]), int(ms["velocity"][k])))
         if sorted(got) != want:
@@ -798,6 +829,8 @@ def tempo_bound(sna, sids, ms):
     if len(ms) == 0:
         return None
     idx = first_index(sna["id"])
+    if any(str(x) not in idx for x in sids):
+        return None  # rows for ids the score does not have: judged by the matched-table clause
     rows = [idx[str(x)] for x in sids]
     od = [int(x) for x in sna["onset_div"][rows]]
     dd = [int(x) for x in sna["duration_div"][rows]]
